@@ -17,16 +17,20 @@ Proof.
   destruct (k_intxn s) eqn:E; auto. destruct (w_intxn _ Hw E) as (Hh' & _). congruence.
 Qed.
 Lemma WF_set_forupd : forall v s, WF s -> k_intxn s = true -> WF (set_k_forupd v s).
-Proof. intros v. destruct_st. intros [[? ? ? ? ? ? ? ? ? ? ? ?] ? ?] ?. norm. wf_tac. Qed.
+Proof. intros v. destruct_st. intros [[? ? ? ? ? ? ? ? ? ? ? ? ?] ? ?] ?. norm. wf_tac. Qed.
 Lemma Ext_set_forupd : forall v s, Ext s (set_k_forupd v s).
 Proof. intros v. destruct_st. ext_tac. constructor. Qed.
 Lemma WF_set_intxn_same : forall s, WF s -> k_intxn s = true -> WF (set_k_intxn true s).
-Proof. destruct_st. intros [[? ? ? ? ? ? ? ? ? ? ? ?] ? ?] ?. norm. wf_tac. Qed.
+Proof. destruct_st. intros [[? ? ? ? ? ? ? ? ? ? ? ? ?] ? ?] ?. norm. wf_tac. Qed.
 Lemma Ext_set_intxn : forall b s, Ext s (set_k_intxn b s).
 Proof. intros b. destruct_st. ext_tac. constructor. Qed.
 
+Lemma WF_set_mflags : forall a b s, WF s -> WF (set_k_madd a s) /\ WF (set_k_mrem b s).
+Proof. intros a b. destruct_st. intros [[? ? ? ? ? ? ? ? ? ? ? ? ?] ? ?]. split; wf_tac. Qed.
+Lemma Ext_set_mflags : forall a b s, Ext s (set_k_madd a s) /\ Ext s (set_k_mrem b s).
+Proof. intros a b. destruct_st. split; ext_tac; constructor. Qed.
 Lemma WF_set_sess : forall sh s, WF s -> k_reg s = false -> WF (set_sess sh s).
-Proof. intros sh. destruct_st. intros [[? ? ? ? ? ? ? ? ? ? ? ?] ? ?] ?. norm. wf_tac. Qed.
+Proof. intros sh. destruct_st. intros [[? ? ? ? ? ? ? ? ? ? ? ? ?] ? ?] ?. norm. wf_tac. Qed.
 
 Ltac by_handler L :=
   let Hc := fresh "Hc" in
@@ -63,19 +67,20 @@ Proof.
   intros s Hwf Hreg.
   change (cache_commit oracle) with
     ((fun s => assert_ (k_reg s) s) ;;
-     try_except ((fun s => when (0 <? k_pending s) (cache_flush oracle) s) ;; commit_step oracle)
+     try_except ((fun s => when (modified s) (cache_flush oracle) s) ;; commit_step oracle)
                 (fun e => cache_close oracle true ;; raise e)).
   unfold bind at 1. rewrite Hreg. cbn [assert_]. unfold ret at 1.
   unfold try_except. unfold bind at 1.
-  assert (Hflush : match when (0 <? k_pending s) (cache_flush oracle) s with
+  assert (Hflush : match when (modified s) (cache_flush oracle) s with
                    | (Blocked, _) => other s = true
                    | (Ok, s1) => WF s1 /\ Ext s s1 /\ k_reg s1 = true /\ k_pending s1 = 0
                    | (Err _, s1) => WF s1 /\ Ext s s1 /\ k_reg s1 = true
                    end).
-  { destruct (0 <? k_pending s) eqn:Hp; cbn [when].
+  { destruct (modified s) eqn:Hp; cbn [when].
     - use (cache_flush_spec oracle s Hwf Hreg); dest; splits; auto.
-    - apply Nat.ltb_ge in Hp. unfold ret. splits; auto using Ext_refl. lia. }
-  destruct (when (0 <? k_pending s) (cache_flush oracle) s) as [r1 s1]. destruct r1.
+    - unfold modified in Hp. apply Bool.orb_false_elim in Hp. destruct Hp as (Hp & _). apply Bool.orb_false_elim in Hp. destruct Hp as (Hp & _).
+      apply Nat.ltb_ge in Hp. unfold ret. splits; auto using Ext_refl. lia. }
+  destruct (when (modified s) (cache_flush oracle) s) as [r1 s1]. destruct r1.
   - destruct Hflush as (Hwf1 & Hx1 & Hreg1 & Hp1).
     use (commit_step_spec oracle s1 Hwf1 Hreg1 Hp1).
     + dest. splits; eauto using Ext_trans; congruence.
@@ -194,7 +199,7 @@ Qed.
 Lemma run_op_spec : forall o s, WF s -> Post s (run_op oracle o s).
 Proof.
   intros o s Hwf. unfold Post. destruct o; cbn [run_op]; unfold exec.
-  - (* OSelect *) use (exec_spec oracle false SSelect (or_introl eq_refl) s Hwf); dest; auto.
+  - (* OSelect *) use (exec_spec oracle false SSelect s Hwf (or_introl eq_refl)); dest; auto.
   - (* OForUpd *)
     unfold bind at 1. destruct (get_cache_spec s Hwf) as (s1 & -> & Hwf1 & Hx1 & Hreg1 & _).
     unfold bind at 1. unfold upd at 1.
@@ -204,7 +209,7 @@ Proof.
     assert (Hreg2 : k_reg (set_k_imm true s1) = true) by exact Hreg1.
     set (s2 := set_k_imm true s1) in *. clearbody s2.
     unfold bind at 1.
-    use (exec_spec oracle false SSelect (or_introl eq_refl) s2 Hwf2).
+    use (exec_spec oracle false SSelect s2 Hwf2 (or_introl eq_refl)).
     + destruct H as (Hwf3 & Hx3 & Hreg3 & _).
       assert (Hx03 : Ext s s0) by eauto using Ext_trans.
       unfold bind. destruct (k_intxn s0) eqn:Hin; cbn [assert_]; unfold ret, raise, upd.
@@ -216,13 +221,36 @@ Proof.
     unfold bind. destruct (get_cache_spec s Hwf) as (s1 & -> & Hwf1 & Hx1 & Hreg1 & _).
     unfold upd. split; [apply WF_set_pending; auto | eapply Ext_trans; [exact Hx1 | apply Ext_set_pending]].
   - (* OFlush *) apply core_flush_spec; auto.
-  - (* ORawWrite *) use (exec_spec oracle true SWrite (or_intror (conj eq_refl eq_refl)) s Hwf); dest; auto.
+  - (* ORawWrite *) use (exec_spec oracle true SWrite s Hwf (or_intror (conj eq_refl (or_introl eq_refl)))); dest; auto.
   - (* OCommit *) use (core_commit_spec s Hwf); dest; auto.
   - (* ORollback *) use (core_rollback_spec s Hwf); dest; auto.
   - (* ODbCommit *) use (db_commit_spec s Hwf); dest; auto.
   - (* ODbRollback *) unfold db_rollback. use (core_rollback_spec s Hwf); dest; auto.
   - (* ORaise *) unfold raise. auto using Ext_refl.
   - (* OGetConn *) apply get_connection_spec; auto.
+  - (* OLink *)
+    unfold bind. destruct (get_cache_spec s Hwf) as (s1 & -> & Hwf1 & Hx1 & Hreg1 & _).
+    unfold upd. split; [apply (WF_set_mflags true true); auto | eapply Ext_trans; [exact Hx1 | apply (Ext_set_mflags true true)]].
+  - (* OUnlink *)
+    unfold bind. destruct (get_cache_spec s Hwf) as (s1 & -> & Hwf1 & Hx1 & Hreg1 & _).
+    unfold upd. split; [apply (WF_set_mflags true true); auto | eapply Ext_trans; [exact Hx1 | apply (Ext_set_mflags true true)]].
+  - (* OGetFU *)
+    destruct (cached && locked).
+    { destruct (get_cache_spec s Hwf) as (s1 & -> & Hwf1 & Hx1 & _). auto. }
+    unfold bind at 1. destruct (get_cache_spec s Hwf) as (s1 & -> & Hwf1 & Hx1 & Hreg1 & _).
+    unfold bind at 1. unfold upd at 1.
+    assert (Hwf2 : WF (set_k_imm true s1)) by (apply WF_set_imm_true; exact Hwf1).
+    assert (Hx2 : Ext s (set_k_imm true s1)) by (eapply Ext_trans; [exact Hx1 | apply Ext_set_imm]).
+    set (s2 := set_k_imm true s1) in *. clearbody s2.
+    unfold bind at 1.
+    use (exec_spec oracle false SSelect s2 Hwf2 (or_introl eq_refl)).
+    + destruct H as (Hwf3 & Hx3 & Hreg3 & _).
+      assert (Hx03 : Ext s s0) by eauto using Ext_trans.
+      unfold bind. destruct (k_intxn s0) eqn:Hin; cbn [assert_]; unfold ret, raise, upd.
+      * split; [apply WF_set_forupd; auto | eapply Ext_trans; [exact Hx03 | apply Ext_set_forupd]].
+      * auto.
+    + dest. split; eauto using Ext_trans.
+    + rewrite (Ext_other _ _ Hx2) in H. exact H.
 Qed.
 
 Lemma run_body_spec : forall b s, WF s -> Post s (run_body oracle b s).
